@@ -148,6 +148,8 @@ def jobs(tier, seed):
     for k in ((1, 2, 3) if tier == "quick" else (1, 2, 3, 4)):
         jobs.append({"harness": "escape", "params": {"k": k}, "weight": 3 * k, "cpu_cap": 1500, "wall_cap": 2400})
     for name, sc, inline, opts in SLOTS:
+        if tier == "quick" and name == "autolink-mail":
+            continue  # ~12 CPU-s per path (e-mail regex on a symbolic string): thorough only
         cfgs = [JS] if tier == "quick" else [JS, CMH, JST]
         for cfg in cfgs:
             scaffold = sc
